@@ -72,9 +72,38 @@ func (c *Ctx) dupPairs(fd *ast.FuncDecl) (pairs []dupPair, r2ok bool, finalTrue 
 		}
 		return "?", nil
 	}
+	// for i, v := range r1.F: v stands for r1.F[i]
+	rangeVals := map[types.Object]ast.Expr{}
+	ast.Inspect(fd.Body, func(n ast.Node) bool {
+		if rs, ok := n.(*ast.RangeStmt); ok && rs.Tok == token.DEFINE {
+			if id, isId := rs.Value.(*ast.Ident); isId && id.Name != "_" {
+				rangeVals[c.Info.Defs[id]] = rs.X
+			}
+		}
+		return true
+	})
+	strip := func(e ast.Expr) (ast.Expr, bool, bool) {
+		if id, ok := ast.Unparen(e).(*ast.Ident); ok {
+			if x, isRV := rangeVals[c.Info.Uses[id]]; isRV {
+				return ast.Unparen(x), false, true
+			}
+		}
+		return stripIndexLen(c, e)
+	}
 	mk := func(a, b ast.Expr, cmp string, pos token.Pos, inSwitch, retFalse bool) {
-		ia, la, xa := stripIndexLen(c, a)
-		ib, lb, xb := stripIndexLen(c, b)
+		if cmp == "slices.Equal" {
+			// equal lengths and equal elements, compared with ==
+			ra, fa := rootOf(ast.Unparen(a))
+			rb, fb := rootOf(ast.Unparen(b))
+			if fa != nil || fb != nil {
+				pairs = append(pairs,
+					dupPair{F1: fa, F2: fb, Root1: ra, Root2: rb, Cmp: "!=", LenOnly: true, InSwitch: inSwitch, RetFalse: retFalse, Pos: pos},
+					dupPair{F1: fa, F2: fb, Root1: ra, Root2: rb, Cmp: "!=", Indexed: true, InSwitch: inSwitch, RetFalse: retFalse, Pos: pos})
+			}
+			return
+		}
+		ia, la, xa := strip(a)
+		ib, lb, xb := strip(b)
 		ra, fa := rootOf(ia)
 		rb, fb := rootOf(ib)
 		if fa == nil && fb == nil {
